@@ -375,6 +375,112 @@ def self_branch_session(_):
         ses.close()
 
 
+ENDLESS = '.test "a" {\n    ldx #0\nloop:\n    inx\n    nop\n    nop\n    jmp loop\n}\n'     # one round of the loop = 9 cycles
+
+
+def _cyc(resp):
+    return int([v["value"] for v in resp["body"]["variables"] if v["name"] == "CYC"][0])
+
+
+def breakpoint_while_running_session(sched):
+    """A breakpoint that is set while the machine runs freely must stop it the next time the line is executed. Judged by the
+    cycle counter: once setBreakpoints has been answered, a machine that is seen many rounds of the loop later without a stopped
+    event has executed the line with the breakpoint installed."""
+    out = {"violations": [], "inconclusive": [], "counts": {}, "cover": {"breakpoint-while-running"}, "sample": None, "evaluations": 1}
+    ses = Session(ENDLESS, sched, trace=False)
+    try:
+        r = ses.start([])
+        if not isinstance(r, dict) or not r.get("success"):
+            out["inconclusive"].append("endless-loop session did not start")
+            return out
+        time.sleep(0.05)
+        line = 4 if sched is None or hash(sched) % 2 else 5
+        rb = ses.set_breakpoints([line])
+        if not isinstance(rb, dict) or not rb.get("success"):
+            out["violations"].append(("no-response|setBreakpoints|while-running", "setBreakpoints while running: %r" % (rb,), {"source": ENDLESS}))
+            return out
+        a = ses.dap.request("variables", {"variablesReference": 1})
+        if not (isinstance(a, dict) and a.get("success")):
+            out["inconclusive"].append("no register read after setBreakpoints")
+            return out
+        cyc0 = _cyc(a)
+        for _ in range(200):
+            what = ses.wait_stop(0.02)
+            if what == "stopped":
+                snap = ses.snapshot()
+                out["counts"]["breakpoint_while_running_hits"] = 1
+                if snap is None or snap["line"] != line:
+                    out["violations"].append(("stale-frame|breakpoint-while-running", "stopped by the breakpoint on line %d but the frame says %r" % (line, snap), {"source": ENDLESS}))
+                # and removing it while stopped, then continuing, must let the machine run on
+                ses.set_breakpoints([])
+                ses.ev = ses.dap.event_count()
+                ses.dap.request("continue", {"threadId": 1})
+                b1 = ses.dap.request("variables", {"variablesReference": 1})
+                time.sleep(0.05)
+                b2 = ses.dap.request("variables", {"variablesReference": 1})
+                if ses.wait_stop(0.05) == "stopped" and not (isinstance(b2, dict) and b2.get("success") and _cyc(b2) > _cyc(b1) + 900):
+                    out["violations"].append(("stopped-without-reason|removed-breakpoint", "a removed breakpoint stopped the machine again", {"source": ENDLESS}))
+                return out
+            if what == "terminated":
+                out["inconclusive"].append("endless loop terminated")
+                return out
+            b = ses.dap.request("variables", {"variablesReference": 1})
+            if isinstance(b, dict) and b.get("success") and _cyc(b) > cyc0 + 9 * 1000:
+                out["violations"].append(("breakpoint-run-over|set-while-running", "breakpoint on line %d was installed at CYC <= %d; at CYC %d (more than 1000 rounds of the "
+                                          "9-cycle loop later) the machine is still running and no stopped event has arrived" % (line, cyc0, _cyc(b)),
+                                          {"source": ENDLESS, "breakpoint_line": line, "sched": sched}))
+                return out
+        out["inconclusive"].append("breakpoint while running: neither a stop nor enough observed progress")
+        return out
+    finally:
+        ses.close()
+
+
+MULTI = ('.macro bump() {\n    iny\n    nop\n}\n.test "a" {\n    ldx #0\n    ldy #0\n    .loop 3 {\n        inx\n        nop\n    }\n'
+         '    bump()\n    bump()\n    txa\n    brk\n}\n')
+# line numbers: iny = 2 (macro body, executed twice), inx = 9 (loop body, assembled three times), txa = 14
+
+
+def multi_address_session(sched):
+    """A breakpoint on a source line that is assembled at several addresses (loop body, macro body) stops at every one of them."""
+    out = {"violations": [], "inconclusive": [], "counts": {}, "cover": {"breakpoint-on-multiply-assembled-line"}, "sample": None, "evaluations": 1}
+    ses = Session(MULTI, sched, trace=False)
+    try:
+        r = ses.start([9, 2])
+        if not isinstance(r, dict) or not r.get("success"):
+            out["inconclusive"].append("multi-address session did not start")
+            return out
+        expected = [(9, "X", 0), (9, "X", 1), (9, "X", 2), (2, "Y", 0), (2, "Y", 1)]
+        for k, (line, reg, val) in enumerate(expected):
+            what = ses.wait_stop(10)
+            if what == "terminated":
+                out["violations"].append(("breakpoint-run-over|multiply-assembled-line", "the test ended after %d of 5 breakpoint stops: line %d is executed %s more time(s) "
+                                          "(expected next stop: line %d with %s=%d)" % (k, line, "one or", line, reg, val), {"source": MULTI, "breakpoints": [9, 2], "sched": sched}))
+                return out
+            if what is None:
+                out["inconclusive"].append("multi-address: no event")
+                return out
+            snap = ses.snapshot()
+            out["evaluations"] += 1
+            if snap is None:
+                out["inconclusive"].append("multi-address: no snapshot")
+                return out
+            if snap["line"] != line or snap[reg] != val:
+                out["violations"].append(("breakpoint-run-over|multiply-assembled-line" if (snap["line"], snap.get(reg)) in [(l, v) for l, r_, v in expected[k + 1:] if r_ == reg] or snap["line"] != line
+                                          else "registers-differ-from-reference|multiply-assembled-line",
+                                          "stop %d: expected line %d with %s=%d, the debugger shows line %s with %s=%s" % (k + 1, line, reg, val, snap["line"], reg, snap.get(reg)),
+                                          {"source": MULTI, "breakpoints": [9, 2], "snapshot": snap}))
+                return out
+            out["counts"]["multi_address_stops"] = out["counts"].get("multi_address_stops", 0) + 1
+            ses.ev = ses.dap.event_count()
+            ses.dap.request("continue", {"threadId": 1})
+        if ses.wait_stop(10) != "terminated":
+            out["violations"].append(("stopped-without-reason|multiply-assembled-line", "a sixth stop although the lines with breakpoints are executed five times", {"source": MULTI}))
+        return out
+    finally:
+        ses.close()
+
+
 def main(tier, seed):
     t0 = time.time()
     rng = rng_for(seed, "c19")
@@ -391,6 +497,13 @@ def main(tier, seed):
         results = list(ex.map(run_session, jobs))
     jobs.append(("self-branch-witness", False, None, "witness"))
     results.append(self_branch_session(None))
+    reps = 3 if tier == "quick" else 30
+    for k in range(reps):
+        sched = [None, "%d,50" % rng.randrange(10 ** 6), "%d,2000" % rng.randrange(10 ** 6)][k % 3]
+        jobs.append(("breakpoint-while-running-%d" % k, False, sched, "witness"))
+        results.append(breakpoint_while_running_session(sched))
+        jobs.append(("multi-address-%d" % k, False, sched, "witness"))
+        results.append(multi_address_session(sched))
     for job, o in zip(jobs, results):
         acc.evaluations += o["evaluations"]
         for k, v in o["counts"].items():
